@@ -7,6 +7,7 @@
 mod wasm_driver;
 mod x01;
 mod x02;
+mod x03;
 
 mod c01;
 mod c02;
@@ -115,6 +116,7 @@ fn main() {
                     "c13" => c13::replay(c, &setup),
                     "c14" => c14::replay(c),
                     "x01" => x01::replay(c),
+                    "x03" => x03::replay(c),
                     "c16" => c16::replay(c),
                     "c17" => c17::replay(c),
                     "c20" => c20::replay(c),
